@@ -97,7 +97,8 @@ def apply_contract(interp, c, func, args, kwargs):
                       {'kind': 'callee-pre', 'callee': c.qname})
             st.assume(ok)
     if c.requires is not None:
-        ok = interp.truth(_call_pred(interp, c.requires, env))
+        ok = interp.truth(_call_pred(interp, c.requires, env, proving=(
+            '%s : requires of %s' % (caller, c.qname), {'kind': 'callee-pre', 'callee': c.qname})))
         st.oblige('%s : requires of %s' % (caller, c.qname), ok, {'kind': 'callee-pre', 'callee': c.qname})
         st.assume(ok)
     old = None
@@ -514,7 +515,7 @@ def _exc_name(e):
 def _oblige_clause(interp, name, clause, env, meta):
     st = interp.st
     try:
-        v = interp.truth(_call_pred(interp, clause, env))
+        v = interp.truth(_call_pred(interp, clause, env, proving=(name, meta)))
     except PyRaise as e:
         st.oblige(name, False, dict(meta, clause_raised=repr(e.exc)))
         return
